@@ -87,7 +87,7 @@ def build():
         'AppSignature.from_app', module=SIG, serves=['C16'],
         params={'cls': None, 'app': K.Atom('App'), 'database': K.Str},
         returns=K.Ref('AppSignature'),
-        requires=['len(added_models) == 0'],
+        requires=['len(added_models) == 0'], modifies=['added_models'],
         raises={},
         invariants={1: LoopInv(
             'for model in get_models(app):', index='i',
@@ -134,7 +134,7 @@ def build():
     w.contract(
         'EvolveAppTask.generate_mutations_info', module=TASK, serves=['C16'],
         params={'self': K.Ref('EvolveAppTask'), 'pending_mutations': K.Seq(MUT), 'update_evolver': K.Bool},
-        returns=None, requires=['ran_count == 0'],
+        returns=None, requires=['ran_count == 0'], modifies=['ran_mutations', 'ran_count'],
         raises={'Exception': True},
         ensures=[
             # only mutations routed to this database reach the mutator ...
